@@ -321,6 +321,24 @@ func (m *Machine) stub(fn *ssa.Function, args []Val) (r Val, ok bool) {
 		}
 	}()
 	switch name {
+	case "strconv.AppendFloat", "strconv.FormatFloat":
+		// float formatting is outside the solver's reach: an opaque token (never compared successfully with a
+		// reference, so properties about float text end inconclusive rather than falsely proved)
+		tok := m.strObj("<float>")
+		if name == "strconv.FormatFloat" {
+			return tok, true
+		}
+		dst := args[0].(Slice)
+		o := m.heap.New(dst.n+tok.n, "AppendFloat")
+		if dst.n > 0 {
+			m.copyCells(Ptr{o, 0}, dst.p, dst.n)
+		}
+		m.copyCells(Ptr{o, dst.n}, tok.p, tok.n)
+		return Slice{Ptr{o, 0}, dst.n + tok.n, dst.n + tok.n}, true
+	case "strconv.ParseFloat":
+		// opaque: an arbitrary float of the requested size, no error (range errors are outside the harness bounds)
+		f := m.newEnvNondet(64, "float")
+		return Agg{f, Iface{}}, true
 	case "errors.Is":
 		return m.errorsIs(args[0].(Iface), args[1].(Iface)), true
 	case "bytes.IndexByte", "strings.IndexByte":
